@@ -24,7 +24,7 @@ PROPS = {
     "C07": {"level": "exploration", "stages": ["native"]},
     "C08": {"level": "exploration", "stages": ["native"]},
     "C09": {"level": "exploration", "stages": ["native", "stdbuild"]},
-    "C10": {"level": "exploration", "stages": ["native"]},
+    "C10": {"level": "exploration", "stages": ["native", "constrained"]},
     "C11": {"level": "fault_enumeration", "stages": ["native", "nohooks", "miri"]},
     "C12": {"level": "exploration", "stages": ["native"], "thorough_extra": ["miri"]},
     "C13": {"level": "exploration", "stages": ["native"]},
@@ -149,19 +149,28 @@ class Run:
     # builds with reduced HBS_LMS_* limits in which the hostile-input drivers are run as well
     # (fixed-capacity containers are sized from these limits); the target directories are shared
     # with the C14 stage
-    CONSTRAINED = [
+    CONSTRAINED = {
         # (name, levels, heights, winternitz, quick?)
-        ("L1", 1, "25", "1", True),
-        ("L3-h10-5-5-w8-4-2", 3, "10, 5, 5", "8, 4, 2", True),
-        ("L2-h5-10", 2, "5, 10", "1, 1", False),
-        ("L5", 5, "25, 25, 25, 25, 25", "1, 1, 1, 1, 1", False),
-    ]
+        "C06": [
+            ("L1", 1, "25", "1", True),
+            ("L3-h10-5-5-w8-4-2", 3, "10, 5, 5", "8, 4, 2", True),
+            ("L2-h5-10", 2, "5, 10", "1, 1", False),
+            ("L5", 5, "25, 25, 25, 25, 25", "1, 1, 1, 1, 1", False),
+        ],
+        # aux data: builds in which the top tree of a key has the maximum height the build allows
+        # (its leaf level is then cached) and builds with fewer levels
+        "C10": [
+            ("L1-h5", 1, "5", "1", True),
+            ("L8-h5", 8, ", ".join(["5"] * 8), ", ".join(["1"] * 8), True),
+            ("L2-h10-5", 2, "10, 5", "1, 1", False),
+        ],
+    }
 
     def stage_constrained(self):
         from concurrent.futures import ThreadPoolExecutor
         base = os.path.join(self.root, "target", "c14")
         os.makedirs(base, exist_ok=True)
-        configs = [c for c in self.CONSTRAINED if c[4] or self.tier == "thorough"]
+        configs = [c for c in self.CONSTRAINED[self.prop] if c[4] or self.tier == "thorough"]
 
         def one(cfg):
             name, lv, hs, ws, _ = cfg
@@ -182,7 +191,7 @@ class Run:
                 v["key"] = v["key"] + f":build={name}"
                 v["what"] = f"[build HBS_LMS_MAX_ALLOWED_HSS_LEVELS={lv} HBS_LMS_TREE_HEIGHTS='{hs}' HBS_LMS_WINTERNITZ_PARAMETERS='{ws}'] " + v["what"]
             # a constrained build refuses most of the default workload's keys: what it did observe is in its counters
-            d["inconclusive"] = [w for w in d.get("inconclusive", []) if "reference tool" not in w]
+            d["inconclusive"] = [w for w in d.get("inconclusive", []) if "reference tool" not in w and "layout" not in w]
             return name, d
 
         with ThreadPoolExecutor(len(configs)) as ex:
